@@ -500,6 +500,33 @@ def replay(path):
     elif k == 'children':
         print('implementation now:', impl_children(m['hash'], m['base']))
     print('gallina case:', r.get('gallina_case'))
+    model_side(r.get('gallina_case'), m)
+
+
+def model_side(lit, m):
+    """evaluate the model on the replayed case inside Coq and print its value and the verdict"""
+    import tempfile
+    from lib import COQ, sh
+    if not lit:
+        return
+    extra = ''
+    k = m.get('k')
+    if k == 'decode':
+        extra = f'Eval vm_compute in decode_niemeyer {zlit(m["base"])} {slit(m["hash"])}.\n'
+    elif k == 'encode':
+        extra = f'Eval vm_compute in coord_to_niemeyer {zlit(m["base"])} ({fq(m["lon"][0])}, {fq(m["lat"][0])}) {zlit(m["len"])}.\n'
+    elif k in ('box', 'box-reject'):
+        extra = f'Eval vm_compute in niemeyer_to_geobox {zlit(m["base"])} {slit(m["hash"])}.\n'
+    elif k == 'children':
+        extra = f'Eval vm_compute in get_subhashes {zlit(m["base"])} {slit(m["hash"])}.\n'
+    with tempfile.TemporaryDirectory(dir=os.path.join(os.path.dirname(COQ), '.run')) as d:
+        f = os.path.join(d, 'replay.v')
+        open(f, 'w').write('From Coq Require Import QArith String.\nFrom GV Require Import Prelude GeohashM GeohashK.\n'
+                           'Open Scope string_scope. Open Scope Z_scope. Open Scope Q_scope.\n'
+                           + extra + f'Eval vm_compute in check ({lit}).\n')
+        rc, out = sh(['coqc', '-Q', os.path.join(COQ, 'theories'), 'GV', f], cwd=d, timeout=300)
+        print('model (value, then whether model and recorded implementation answer agree):')
+        print(out[-3000:])
 
 
 if __name__ == '__main__':
